@@ -60,7 +60,7 @@ def part_a(run, n):
         groups.setdefault((ob.kind, ob.where, ob.msg), []).append(ob)
     for (kind, where, msg), obs in sorted(groups.items()):
         g = b_or(*[o.guard for o in obs])
-        q = run.decide('parse/len%d/%s@%s' % (n, kind, where.split('::')[-1]), [g], kind='smt', note='%s: %s' % (where, msg[:80]))
+        q = run.decide('parse/len%d/%s@%s' % (n, kind, where.split('::')[-1]), list(ex.pre) + [g], kind='smt', note='%s: %s' % (where, msg[:80]))
         if kind == 'unwind':
             run.unwinding.append({'where': where, 'bound': ex.loop_bound, 'checked': q.verdict == 'unsat'})
         if q.verdict != 'sat':
